@@ -701,7 +701,7 @@ class Search(common.Suite):
                 m = rng.choice([0, 1, max(n - 1, 0), n + 1, n + 3])
                 dflt = [rng.randint(-5, -1) for _ in range(m)]
             out.append({"box": box, "cutoff": cut, "required_size": req, "default": dflt,
-                        "default_kind": rng.choice(["list", "ndarray"])})
+                        "default_kind": rng.choice(["list", "ndarray", "ndarray", "readonly"])})
         return out
 
     def build(self, case):
@@ -731,7 +731,9 @@ class Search(common.Suite):
         req = tuple(req) if isinstance(req, list) else req
         d = case["default"]
         if d is not None:
-            d = np.array(d, dtype=int) if case["default_kind"] == "ndarray" else list(d)
+            d = np.array(d, dtype=int) if case["default_kind"] in ("ndarray", "readonly") else list(d)
+            if case["default_kind"] == "readonly":
+                d.flags.writeable = False      # "any default array": a view the caller may not write to
         before = None if d is None else [int(x) for x in d]
         try:
             out = search_molecules(atoms, self.py_cutoff(case), required_size=req, default_array=d)
@@ -783,6 +785,10 @@ class Search(common.Suite):
             return [("search:length", f"{len(lab)} labels for {n} atoms")]
         base = d if d is not None else [-1] * n
         out = []
+        if obs.get("caller_array_mutated"):
+            # the labels were written into the caller's own array: a template reused for the next search no longer
+            # holds "the supplied default"
+            out.append(("search:default-array-overwritten", f"default_array ({case['default_kind']}) {d} was modified in place"))
         adm = [c for c in comps if lo <= len(c) <= hi]
         for c in comps:
             if not (lo <= len(c) <= hi):
